@@ -441,7 +441,18 @@ class EffectClient(Client):
                     if self.depth > 4:
                         raise AnalysisError('recursion while inlining %s' % meth)
                     sub = EffectClient(self.model, target, self.depth + 1)
-                    res = sub.run_method(target, s.with_(locs=frozenset()))
+                    # bind the parameters: abstract kinds of the arguments; a state constant stays a state
+                    s_in = s.with_(locs=frozenset())
+                    params = target.params[1:]
+                    bound = list(zip(params, call.args)) + [(k.arg, k.value) for k in call.keywords if k.arg in params]
+                    dflt = target.node.args.defaults
+                    for p_, d_ in zip(params[len(params) - len(dflt):], dflt):
+                        if p_ not in [b[0] for b in bound]:
+                            bound.append((p_, d_))
+                    for p_, a_ in bound:
+                        sn = self._state_name(a_, s)
+                        s_in = s_in.set_local(p_, frozenset([('STATE:' + sn, None)]) if sn else self.kinds(a_, s))
+                    res = sub.run_method(target, s_in)
                     outs = []
                     for s2, val in res['ret']:
                         outs.append(s2.with_(locs=s.locs, retval=val))
@@ -525,6 +536,25 @@ class EffectClient(Client):
             return s
         return s
 
+    def _state_name(self, e: ast.expr, s: EState) -> Optional[str]:
+        """'STA_6' if the expression denotes that state constant (directly, by value, or through a local /
+        parameter bound to one)."""
+        ch = attr_chain(e)
+        if ch and len(ch) >= 2 and ch[-2] == 'States':
+            return ch[-1]
+        if isinstance(e, ast.Name):
+            v = s.local(e.id)
+            if v is not None:
+                if len(v) == 1:
+                    k = next(iter(v))
+                    if isinstance(k, tuple) and isinstance(k[0], str) and k[0].startswith('STATE:'):
+                        return k[0][6:]
+                return None
+        v = self.repo.try_fold(e, self.mod, self.cls)
+        if isinstance(v, int) and not isinstance(v, bool) and v in self.model.state_by_val:
+            return self.model.state_by_val[v]
+        return None
+
     def on_return(self, st, s: EState):
         if st.value is None:
             return [s.with_(retval=None)]
@@ -533,14 +563,7 @@ class EffectClient(Client):
             if isinstance(st.value, ast.Call) and s1.retval is not None:
                 outs.append(s1)
                 continue
-            name = None
-            ch = attr_chain(st.value)
-            if ch and len(ch) >= 2 and ch[-2] == 'States':
-                name = ch[-1]
-            else:
-                v = self.repo.try_fold(st.value, self.mod, self.cls)
-                if isinstance(v, int) and v in self.model.state_by_val:
-                    name = self.model.state_by_val[v]
+            name = self._state_name(st.value, s1)
             if name is None:
                 c = self.canon(st.value)
                 if c == ('self', 'current_state'):
